@@ -86,12 +86,13 @@ Inductive value :=
 | VBool (b : bool) | VInt (z : Z) | VDbl (q : Q) | VStr (s : string)
 | VEnum (id : string) | VChar (c : option ascii).
 
-(* one given option: the spelling used on the command line (without dashes) and what follows *)
+(* one given option: the spelling used on the command line (without dashes) and what follows.
+   The two numeric readings of the token are ORACLES (cxxopts' integer_parser and
+   `stringstream >> double`): None = that parser throws incorrect_argument_type.
+   Flags are given without `=value` (a `--flag=text` form is outside this abstraction). *)
 Inductive aval :=
-| AFlag                 (* no value                       *)
-| AStr (s : string)     (* text that is not a number      *)
-| AInt (z : Z)          (* a decimal integer literal      *)
-| ADbl (q : Q).         (* a decimal literal with . or e  *)
+| AFlag                                                (* no value *)
+| AVal (raw : string) (zi : option Z) (qd : option Q). (* the token, its int reading, its double reading *)
 
 Definition args := list (string * aval).
 
@@ -154,10 +155,9 @@ Definition arg_ok (ds : list odecl) (na : string * aval) : bool :=
   | Some d =>
     match o_default d, snd na with
     | DFlag, AFlag => true
-    | DStr _, AStr _ => true
-    | DInt _, AInt _ => true
-    | DDbl _, AInt _ => true
-    | DDbl _, ADbl _ => true
+    | DStr _, AVal _ _ _ => true
+    | DInt _, AVal _ (Some _) _ => true
+    | DDbl _, AVal _ _ (Some _) => true
     | _, _ => false
     end
   end.
@@ -169,12 +169,11 @@ Definition opt_value (T : tables) (a : args) (o : string) (t : oty) : ev :=
   | None => EExc                              (* cxxopts: option not present -> throws *)
   | Some d =>
     match o_default d, t, given (o_names d) a with
-    | DStr _, TStr, Some (AStr s) => EV (VStr s)
+    | DStr _, TStr, Some (AVal s _ _) => EV (VStr s)
     | DStr s, TStr, None => EV (VStr s)
-    | DInt _, TInt, Some (AInt z) => EV (VInt z)
+    | DInt _, TInt, Some (AVal _ (Some z) _) => EV (VInt z)
     | DInt z, TInt, None => EV (VInt z)
-    | DDbl _, TDbl, Some (ADbl q) => EV (VDbl q)
-    | DDbl _, TDbl, Some (AInt z) => EV (VDbl (inject_Z z))
+    | DDbl _, TDbl, Some (AVal _ _ (Some q)) => EV (VDbl q)
     | DDbl q, TDbl, None => match num_default (t_numfmt T) q with
                             | Some q' => EV (VDbl q')
                             | None => EStuck
@@ -438,6 +437,76 @@ Section IO.
 End IO.
 
 Arguments RMat {V}. Arguments RWrong {V}.
+
+(* ---------------------------------------------------------------------- *)
+(*  Part B'.  main(): decide, read, transpose, call the library, write     *)
+(* ---------------------------------------------------------------------- *)
+Inductive read_loop := LoopGetline | LoopStreamThenGetline | LoopOther.
+
+Section Main.
+  Variable V : Type.
+  Variable parse : string -> option V.
+  Variable print : V -> string.
+  (* the library: parameters, "tables are precomputed", feature matrix (one column per sample)
+     -> None (an exception leaves run()) | embedding (one row per sample) and, for the linear
+     methods, projection matrix and mean *)
+  Variable lib : list (string * value) -> bool -> list (list V)
+                 -> option (list (list V) * option (list (list V) * list V)).
+
+  Record files := { f_embedding : string; f_matrix : option string; f_mean : option string }.
+
+  Inductive result :=
+  | Done (code : Z) (out : files)
+  | Fail (code : Z)
+  | MStuck.
+
+  Definition io_bool (io : list (string * value)) (k : string) : option bool :=
+    match assoc k io with Some (VBool b) => Some b | _ => None end.
+
+  Definition io_char (io : list (string * value)) (k : string) : option ascii :=
+    match assoc k io with
+    | Some (VChar (Some c)) => Some c
+    | Some (VChar None) => Some zero               (* delimiter[0] of "" is the terminating NUL *)
+    | _ => None
+    end.
+
+  Definition read_with (l : read_loop) (d : ascii) (content : string) : option (rres V) :=
+    match l with
+    | LoopGetline => Some (read_data_fixed V parse d content)
+    | LoopStreamThenGetline => Some (read_data_shipped V parse d content)
+    | LoopOther => None
+    end.
+
+  Definition cli_main (T : tables) (l : read_loop) (a : args) (content : string) : result :=
+    match cli_decide T a with
+    | Exit c => Fail c
+    | Stuck => MStuck
+    | Run ps io =>
+      match io_char io "delimiter_read", io_char io "delimiter_write", io_char io "delimiter_projection",
+            io_bool io "transpose_input_when", io_bool io "transpose_output_when",
+            io_bool io "precompute_when", io_bool io "write_projection_when" with
+      | Some dr, Some dw, Some dp, Some tin, Some tout, Some pre, Some wproj =>
+        match read_with l dr content with
+        | None => MStuck
+        | Some (RWrong _) => Fail (catch_code T)            (* runtime_error -> main()'s handler *)
+        | Some (RMat file) =>
+          let features := if tin then transpose V file else file in
+          match lib ps pre features with
+          | None => Fail (catch_code T)
+          | Some (E, proj) =>
+            let out := write_matrix V print dw (if tout then transpose V E else E) in
+            match (if wproj then proj else None) with
+            | Some (pm, mean) =>
+              Done 0%Z {| f_embedding := out; f_matrix := Some (write_matrix V print dp pm);
+                          f_mean := Some (write_vector V print mean) |}
+            | None => Done 0%Z {| f_embedding := out; f_matrix := None; f_mean := None |}
+            end
+          end
+        end
+      | _, _, _, _, _, _, _ => MStuck
+      end
+    end.
+End Main.
 
 (* ---------------------------------------------------------------------- *)
 (*  Part C.  matrix_from_callback (util.hpp) and the precomputed callbacks *)
